@@ -396,7 +396,7 @@ def world_pair(rng, tn=None, sn=None, kind=None, third=False):
         if lk == "same":
             links.append(["same", 0, p, 1, k])
         else:
-            links.append(["aff", 0, p, 1, k, rng.choice(SCALES), rng.choice(OFFSETS)])
+            links.append(aff_link(0, p, 1, k, ds[1]["shape"][k], rng))
     if third:
         un = rng.randint(1, 2)
         ds.append(mk_ds(rand_shape(un, rng), 1, rng, 200))
@@ -405,10 +405,20 @@ def world_pair(rng, tn=None, sn=None, kind=None, third=False):
             if rng.random() < 0.5:
                 links.append(["same", 1, k, 2, k])
             else:
-                links.append(["aff", 1, k, 2, k, rng.choice(SCALES), rng.choice(OFFSETS)])
+                links.append(aff_link(1, k, 2, k, ds[2]["shape"][k], rng))
     cw = {"ds": ds, "links": links, "states": []}
     cw["states"] = std_states(cw, rng)
     return cw
+
+
+def aff_link(t, p, s_, k, src_size, rng):
+    """s.pix[k] = a·t.pix[p] + b with the offset chosen so that the two grids overlap"""
+    a = rng.choice(SCALES)
+    if q_of(a) < 0:
+        b = q_enc(q_of(rng.choice([src_size - 1, src_size - 1, src_size, Fraction(2 * src_size - 1, 2)])))
+    else:
+        b = rng.choice(OFFSETS)
+    return ["aff", t, p, s_, k, a, b]
 
 
 def world_twins(rng):
@@ -422,9 +432,9 @@ def world_twins(rng):
     rng.shuffle(axes)
     links = []
     for k in range(sn):
-        a, b = rng.choice(SCALES), rng.choice(OFFSETS)
+        l = aff_link(0, axes[k], 1, k, sshape[k], rng)
         for s_ in (1, 2):
-            links.append(["same", 0, axes[k], s_, k] if a == 1 and b == 0 else ["aff", 0, axes[k], s_, k, a, b])
+            links.append(["same", 0, axes[k], s_, k] if (l[5] == 1 and l[6] == 0) else l[:3] + [s_] + l[4:])
     cw = {"ds": ds, "links": links, "states": []}
     cw["states"] = std_states(cw, rng)
     return cw
@@ -456,23 +466,37 @@ def perm_matrix(n, perm, scales, trans):
 
 def world_wcs(rng, n=None, coupled=False):
     """two datasets with affine coordinates (permuted / scaled / shifted axes, optionally a coupled
-    2×2 block), all world axes linked pairwise."""
+    2×2 block in the reference), all world axes linked pairwise; the coordinates of the second one
+    are chosen so that the composite pixel→pixel map is a permutation with scale c ∈ {1, −1, 2, 1/2}
+    and a small offset (so that the two pixel grids overlap)."""
     n = n or rng.randint(1, 3)
-    ds = []
-    for base in (10, 100):
-        perm = list(range(n))
-        rng.shuffle(perm)
-        scales = [rng.choice([1, -1, 2, [1, 2], 4]) for _ in range(n)]
-        trans = [rng.choice(OFFSETS) for _ in range(n)]
-        m = perm_matrix(n, perm, scales, trans)
-        if coupled and n >= 2:
-            # world 0 also depends on the pixel axis of world 1: a triangular block (dyadic inverse)
-            m[0][perm[1]] = rng.choice([1, -1, 2])
-        d = mk_ds(rand_shape(n, rng), 2, rng, base)
-        d["coords"] = m
-        ds.append(d)
+    shapes = [rand_shape(n, rng), rand_shape(n, rng)]
+    perm_a = list(range(n))
+    rng.shuffle(perm_a)
+    scales_a = [q_of(rng.choice([1, 1, -1, 2, [1, 2], 4])) for _ in range(n)]
+    trans_a = [q_of(rng.choice(OFFSETS)) for _ in range(n)]
     pairing = list(range(n))
     rng.shuffle(pairing)
+    perm_b = list(range(n))
+    rng.shuffle(perm_b)
+    scales_b, trans_b = [None] * n, [None] * n
+    for i in range(n):                       # numpy world axis i of B ↔ numpy world axis pairing[i] of A
+        wb, wa = n - 1 - i, n - 1 - pairing[i]
+        c = q_of(rng.choice([1, 1, 1, -1, 2, [1, 2]]))
+        size_b = shapes[1][n - 1 - perm_b[wb]]
+        off = q_of(rng.choice([size_b - 1, size_b - 1, Fraction(2 * size_b - 1, 2)])) if c < 0 else q_of(rng.choice(OFFSETS))
+        scales_b[wb] = scales_a[wa] * c
+        trans_b[wb] = trans_a[wa] - scales_b[wb] * off
+    ds = []
+    for base, shape, perm, scales, trans in ((10, shapes[0], perm_a, scales_a, trans_a),
+                                             (100, shapes[1], perm_b, scales_b, trans_b)):
+        m = perm_matrix(n, perm, [q_enc(x) for x in scales], [q_enc(x) for x in trans])
+        if coupled and n >= 2 and base == 10:
+            # world 0 also depends on the pixel axis of world 1: a triangular block (dyadic inverse)
+            m[0][perm[1]] = rng.choice([1, -1, 2])
+        d = mk_ds(shape, 2, rng, base)
+        d["coords"] = m
+        ds.append(d)
     cw = {"ds": ds, "links": [["world", 0, 1, pairing]], "states": []}
     cw["states"] = std_states(cw, rng)
     return cw
